@@ -190,8 +190,27 @@ type c08World struct {
 	mu    sync.Mutex
 }
 
+// c08LogFilter: access-log header filters of the next world that is built
+// ("" none, "block" = block list authorization,cookie, "allow" = allow list
+// user-agent). They are logging options: they must not change what is proxied.
+var c08LogFilter string
+
+func c08ApplyLogFilter(al *log.AccessLogConfig) {
+	switch c08LogFilter {
+	case "block":
+		al.RequestHeaders.BlockList = []string{"authorization", "cookie", "x-verif-id"}
+		al.ResponseHeaders.BlockList = []string{"set-cookie", "x-upstream-header"}
+	case "allow":
+		al.RequestHeaders.AllowList = []string{"user-agent"}
+		al.ResponseHeaders.AllowList = []string{"content-type"}
+	}
+}
+
 func newC08World(timeout time.Duration) *c08World {
-	nodes, err := e4.StartCluster(2, func(i int, c *config.Config) { c.Proxy.Timeout = timeout })
+	nodes, err := e4.StartCluster(2, func(i int, c *config.Config) {
+		c.Proxy.Timeout = timeout
+		c08ApplyLogFilter(&c.Proxy.AccessLog)
+	})
 	if err != nil {
 		evid.Fatal("cluster: %v", err)
 	}
@@ -412,6 +431,7 @@ func c08Cases(full bool) []c08Req {
 func agentAccessLogOff() (c log.AccessLogConfig) {
 	c.Disable = true
 	c.Level = "info"
+	c08ApplyLogFilter(&c)
 	return c
 }
 
@@ -747,6 +767,32 @@ func init() {
 		wg.Wait()
 		w.close()
 		fmt.Printf("  C08 transparency: requests=%d\n", evals)
+		// the same clusters with access-log header filters configured: every header
+		// set x response shape x route once more (logging options change nothing)
+		for _, lf := range []string{"block", "allow"} {
+			c08LogFilter = lf
+			wl := newC08World(30 * time.Second)
+			c08LogFilter = ""
+			for _, route := range []string{"local", "forwarded", "agent"} {
+				for _, hd := range c08Hdrs {
+					for _, rs := range []string{"200", "set-cookies", "201-location"} {
+						c := c08Req{Method: "POST", Path: "/a/b", Query: "a=b", Hdrs: hd, Body: "1", Resp: rs, Route: route}
+						sig, msg := wl.run(c)
+						for r := 0; r < 3 && sig != "" && (sig == "request-failed" || !e4.AllActive(wl.nodes)); r++ {
+							e4.WaitAllActive(wl.nodes, 30*time.Second)
+							sig, msg = wl.run(c)
+						}
+						evals++
+						nontrivial++
+						if sig != "" {
+							run.Violation("C08", sig, "access-log header filter '"+lf+"' configured: "+msg, map[string]any{"engine": "E4-C08", "case": c, "access_log_filter": lf})
+						}
+					}
+				}
+			}
+			wl.close()
+		}
+		c08LBSequences(run, &evals, &nontrivial)
 		c08Failures(run, &evals, &nontrivial)
 		c08Agent(run, &evals, &nontrivial)
 		c08Auth(run, &evals, &nontrivial)
